@@ -238,7 +238,10 @@ def make_run(cfg):
                             text = ser.loads(got["replies"][0][2])
                         except Exception as x:
                             text = "<undecodable: %r>" % x
-                        if reason not in str(text):
+                        # the validator's own message must be carried; for the daemon's own refusals any non-empty explanation will do
+                        # (the wording is not part of the property)
+                        needs_exact = reason == "validator says no"
+                        if (needs_exact and reason not in str(text)) or (not needs_exact and reason != "" and not str(text).strip()):
                             V("connectfail-without-reason|%s" % reason.replace(" ", "-"), "reason text %r" % (text,))
                         if len(types) > 1:
                             V("traffic-after-connectfail", "replies %r" % (types,))
